@@ -663,6 +663,13 @@ func (g *Gen) run() {
 	co := g.addObl("cover", "pre", "true", fn.Pos(), "preconditions are satisfiable", nil)
 	co.Cover = true
 
+	if fn.Synthetic == "package initializer" && fn.Pkg != nil {
+		// the runtime runs a package initialiser once, before main: its guard is clear on entry
+		if gv, ok := fn.Pkg.Members["init$guard"].(*ssa.Global); ok {
+			st.globals[gv] = "false"
+			g.trusted["package initialisers run exactly once (init$guard is false on entry)"] = true
+		}
+	}
 	order := g.topo()
 	g.reach[fn.Blocks[0]] = "true"
 	for _, b := range order {
